@@ -12,6 +12,11 @@ cones and exponential cones at arbitrary column positions.  Every call of `to_so
 formulated program (the code extends the source's `qmat` in place); the mutation itself is checked
 separately (counted in the histogram as `src_qmat_mutated`).
 
+The model parameter `elo` (the coefficient `np.exp(cut_lower)` of `alpha_0` in row 0 of every
+block, the repair of the lower cut) is sent as the exact rational value of the float
+`np.exp(cuts[0])`; the driver refuses a request without `elo` (checked: `old_format_rejected`).
+Against the unrepaired library (no such entry) every case with an exponential cone mismatches.
+
 Comparison is entry by entry and exact: every float of the result is converted to an exact
 fraction.  The only non-dyadic entries are the three literals `20/2**L/24`, `23/24`, `1/24`, for
 which the model holds the exact rational and the code its correctly rounded double: there the test
@@ -19,7 +24,8 @@ requires `float(model) == code` (and that the model's denominator is a multiple 
 """
 import sys, os, json, random, subprocess, copy
 from fractions import Fraction
-sys.path.insert(0, '/repo')
+# the library under test: $RSOME_REPO (default /repo)
+sys.path.insert(0, os.environ.get('RSOME_REPO', '/repo'))
 import numpy as np
 import scipy.sparse as sp
 import rsome as rso
@@ -270,7 +276,10 @@ def main():
             g2 = f2.to_socp(L, cuts)
             assert prog_expected(g2) == prog_expected(g)
         exp = prog_expected(g)
-        req = {"op": "to_socp", "prog": src, "degree": L, "cuts": [fs(cuts[0]), fs(cuts[1])]}
+        # `elo`: the float the code writes for `np.exp(cut_lower)` at (row 0, alpha_0) of every block,
+        # passed exactly; the driver rejects a request without it
+        elo = Fraction(float(np.exp(cuts[0])))
+        req = {"op": "to_socp", "prog": src, "degree": L, "cuts": [fs(cuts[0]), fs(cuts[1])], "elo": fs(elo)}
         reqs.append(req); exps.append(exp); descs.append((desc, L, cuts, len(src["xmat"])))
         bump(f'ncones_{len(src["xmat"])}')
         bump('synthetic' if synth else 'model')
@@ -289,11 +298,22 @@ def main():
         deg0 = 'IndexError'
     bump('degree0_' + deg0)
 
-    inp = "\n".join(json.dumps(r) for r in reqs) + "\n"
+    # an old-format request (no "elo") must be rejected by the driver
+    old_req = None
+    if reqs:
+        old_req = {k: v for k, v in reqs[0].items() if k != "elo"}
+    inp = "\n".join(json.dumps(r) for r in reqs + ([old_req] if old_req else [])) + "\n"
     pr = subprocess.run(["lake", "env", "lean", "--run", "Driver.lean"], input=inp, capture_output=True,
                         text=True, cwd=HERE)
     lines = [l for l in pr.stdout.splitlines() if l.strip()]
     mism = 0
+    if old_req is not None and len(lines) == len(reqs) + 1:
+        last = json.loads(lines.pop())
+        if "error" in last and "elo" in last["error"]:
+            bump('old_format_rejected')
+        else:
+            mism += 1
+            print("old-format request (no elo) was not rejected:", str(last)[:200])
     if len(lines) != len(reqs):
         print("driver returned", len(lines), "lines for", len(reqs), "requests", pr.stderr[:2000])
         mism = abs(len(lines) - len(reqs))
